@@ -48,7 +48,8 @@ def run(ck, ctx):
     S.t_reset_lexer(ck, ctx, channels=True)
     ck.floor("T-RESET.lexer", 10)
     ck.floor("T-RESET.lexer-const", 2)
-    S.t_dom(ck, ctx, "process_line", S.is_self_call("set_default_flags_in_lexer"), S.is_self_call("process_statement"),
+    from ..specs.lines import check_reset_before_parse
+    check_reset_before_parse(ck, ctx,
             "Parser.process_line: flag reset dominates process_statement()",
             "every path that parses a statement must first put the lexer into its start state")
     # ---- the call chain to the parser
